@@ -124,6 +124,7 @@ var (
 	streak   int // consecutive blocked switches without progress
 	abortFn  func(reason string)
 	hardCap  uint64
+	capHit   bool
 )
 
 // RegisterSites is called from the generated init functions of the
@@ -167,6 +168,7 @@ func Reset() {
 	nlog = 0
 	streak = 0
 	hardCap = 0
+	capHit = false
 }
 
 //go:norace
@@ -186,6 +188,11 @@ func SetAbort(f func(reason string)) { abortFn = f }
 
 //go:norace
 func SetHardCap(n uint64) { hardCap = n }
+
+// CapHit reports whether the step cap fired since the last Reset.
+//
+//go:norace
+func CapHit() bool { return capHit }
 
 //go:norace
 func curTask() *task {
@@ -374,6 +381,14 @@ func Yield(site int) {
 		t = &tasks[cur]
 	} else {
 		t = &mainTask
+	}
+	if hardCap != 0 && steps > hardCap && mode == ModeCount {
+		// single-caller runaway (an exponential parse): unwind through the
+		// library, which turns the panic into an error; the harness asks CapHit
+		if !capHit {
+			capHit = true
+		}
+		panic("verifsim: step cap exceeded")
 	}
 	op := t.op
 	if op == nil {
